@@ -176,15 +176,15 @@ Lemma call_nonnil r e :
              | None => OLost
              end.
 Proof.
-  intros H. unfold call, settle, invoke. rewrite H. cbn [respond andb]. rewrite H. reflexivity.
+  intros H. unfold call, settle, invoke, invoke_gen. rewrite H. cbn [respond andb]. rewrite H. reflexivity.
 Qed.
 
 Lemma call_nil_ok raw e : is_nil e = true -> call (ResJson raw) e = OResult raw.
-Proof. intros H. unfold call, settle, invoke. rewrite H. reflexivity. Qed.
+Proof. intros H. unfold call, settle, invoke, invoke_gen. rewrite H. reflexivity. Qed.
 
 Lemma call_nil_bad why e : is_nil e = true -> call (ResBad why) e = call (ResJson []) why.
 Proof.
-  intros H. unfold call, settle, invoke. rewrite H.
+  intros H. unfold call, settle, invoke, invoke_gen. rewrite H.
   destruct (is_nil why) eqn:Hw; cbn [respond andb]; rewrite Hw; reflexivity.
 Qed.
 
@@ -530,29 +530,28 @@ Proof. vm_compute. repeat split. Qed.
 (* ---- notifications ---------------------------------------------------------------------------------------- *)
 
 Lemma notify_error_discarded r e : is_nil e = false -> notify r e = None.
-Proof. intros H. unfold notify, invoke. rewrite H. reflexivity. Qed.
+Proof. intros H. unfold notify, notify_gen, invoke_gen. rewrite H. reflexivity. Qed.
 
 Lemma notify_ok_silent raw e : is_nil e = true -> notify (ResJson raw) e = None.
-Proof. intros H. unfold notify, invoke. rewrite H. reflexivity. Qed.
+Proof. intros H. unfold notify, notify_gen, invoke_gen. rewrite H. reflexivity. Qed.
 
-(* what remains: the error of json.Marshal on a notification's result is not discarded
-   by invoke, and tasks.responses lets it through when its code is ParseError or
-   InvalidRequest *)
-Lemma notify_bad_result why e :
-  is_nil e = true ->
-  notify (ResBad why) e =
-    if (error_code why =? ParseError) || (error_code why =? InvalidRequest)
-    then (if is_nil why then None else transit (to_wire why))
-    else None.
+(* fix F15: the error of json.Marshal on a notification's result is discarded as well, so a
+   notification never gets a reply, whatever its handler returns *)
+Lemma notify_bad_result why e : notify (ResBad why) e = None.
+Proof. unfold notify, notify_gen, invoke_gen. destruct (is_nil e); reflexivity. Qed.
+
+Lemma notify_never_replies r e : notify r e = None.
 Proof.
-  intros H. unfold notify, invoke. rewrite H. cbn [respond andb].
-  destruct ((error_code why =? ParseError) || (error_code why =? InvalidRequest)); cbn [negb]; [|reflexivity].
-  destruct (is_nil why); reflexivity.
+  destruct (is_nil e) eqn:H.
+  - destruct r; [apply notify_ok_silent; auto|apply notify_bad_result].
+  - apply notify_error_discarded; auto.
 Qed.
 
-Lemma notify_reply_leak :
+(* before the fix the marshalling error was not discarded by invoke, and tasks.responses lets it
+   through when its code is ParseError or InvalidRequest: the notification got a reply *)
+Lemma notify_reply_leak_without_F15 :
   let why := EWrap [106]%N (EJrpc ParseError [112]%N []) in
-  notify (ResBad why) enil =
+  notify_gen false (ResBad why) enil =
     Some {| we_code := ParseError;
             we_msg := [106; 58; 32; 91; 45; 51; 50; 55; 48; 48; 93; 32; 112]%N; we_data := [] |}.
 Proof. reflexivity. Qed.
@@ -711,7 +710,7 @@ Lemma cancellation_refuted_if_replaced :
   (forall r e', call_ctx false CtxLive r e' = call r e').
 Proof.
   cbn zeta. repeat split; intros; try reflexivity; try discriminate.
-  unfold call_ctx, call, invoke_ctx, invoke. destruct (is_nil e'); reflexivity.
+  unfold call_ctx, call, invoke_ctx, invoke, invoke_gen. destruct (is_nil e'); reflexivity.
 Qed.
 
 (* ---- non-vacuity of the remaining implications ------------------------------------------------------------------ *)
